@@ -80,9 +80,33 @@ def is_symbolic(x):
 
 
 # ------------------------------------------------------------------ conversions
+FPMODE = [False]  # when set, float-like values are IEEE float32 terms (z3 FloatingPoint theory, round-to-nearest-even)
+FSORT = z3.Float32()
+
+
+def _fp(x):
+    if is_sym(x):
+        if z3.is_fp(x):
+            return x
+        if z3.is_bool(x):
+            return z3.If(x, z3.FPVal(1.0, FSORT), z3.FPVal(0.0, FSORT))
+        if z3.is_int(x):
+            raise Unsupported("float32 mode: symbolic integer converted to float (write the value as a choice between float constants)")
+        raise Unsupported("float32 mode: real-sorted term")
+    if isinstance(x, XR):
+        raise Unsupported("float32 mode: extended real")
+    if isinstance(x, _pybool):
+        return z3.FPVal(1.0 if x else 0.0, FSORT)
+    if isinstance(x, Fraction):
+        return z3.FPVal(_pyfloat(x), FSORT)
+    return z3.FPVal(_pyfloat(x), FSORT)
+
+
 def _real(x):
     if type(x).__module__ == "numpy":  # numpy scalar that slipped in through an index / broadcast
         x = x.item()
+    if FPMODE[0]:
+        return _fp(x)
     if is_sym(x):
         if z3.is_int(x):
             return z3.ToReal(x)
@@ -127,7 +151,7 @@ def _bool(x):
 
 
 def _is_float_like(x):
-    return isinstance(x, (_pyfloat, Fraction, XR)) or (is_sym(x) and z3.is_real(x))
+    return isinstance(x, (_pyfloat, Fraction, XR)) or (is_sym(x) and (z3.is_real(x) or z3.is_fp(x)))
 
 
 def _is_bool_like(x):
@@ -476,8 +500,10 @@ def s_eq(a, b):
         a, b = _xr(a), _xr(b)
         fa, fb = _finite(a), _finite(b)
         return s_or(s_and(a.pinf, b.pinf), s_or(s_and(a.ninf, b.ninf), s_and(s_and(fa, fb), _cmp(a.v, b.v, lambda x, y: x == y))))
-    if is_sym(a) and is_sym(b) and a.eq(b):
+    if is_sym(a) and is_sym(b) and a.eq(b) and not z3.is_fp(a):
         return True
+    if FPMODE[0] and (_is_float_like(a) or _is_float_like(b)):
+        return z3.fpEQ(_fp(a), _fp(b))
     return _cmp(a, b, lambda x, y: x == y)
 
 
